@@ -176,10 +176,15 @@ def gen_scenario(seed: int, algos: Sequence[str], envs: Optional[Sequence[str]] 
         if rng.random() < 0.6:
             sc["costs"] = [float(x) for x in np.round(rng.uniform(0.5, 3.0, size=m), 2)]
             if rng.random() < 0.5:
-                sc["budget"] = float(rng.choice([0.0, 1.0, 5.0, 20.0]))
+                # dyadic costs: the running total can hit the budget *exactly* (boundary of >= / >)
+                sc["costs"] = [float(x) for x in rng.choice([0.5, 1.0, 1.0, 2.0], size=m)]
+            if rng.random() < 0.6:
+                sc["budget"] = float(rng.choice([0.0, 1.0, 2.0, 3.0, 5.0, 8.0, 20.0]))
     if algo == "DecoupledGP":
         sc["costs"] = [float(x) for x in np.round(rng.uniform(0.5, 3.0, size=m), 2)]
-        sc["budget"] = float(rng.choice([0.0, 2.0, 6.0, 12.0]))
+        if rng.random() < 0.5:
+            sc["costs"] = [float(x) for x in rng.choice([0.5, 1.0, 1.0, 2.0], size=m)]
+        sc["budget"] = float(rng.choice([0.0, 2.0, 3.0, 6.0, 12.0]))
     if algo == "Auer":
         sc["emp_beta"] = bool(rng.random() < 0.6)
     if algo == "NaiveElimination":
